@@ -35,10 +35,16 @@ Theorem C03_ps_pok_complete : forall K, is_field K -> forall x w ys s1 s2 m_tick
   end.
 Proof. exact ps_pok_complete. Qed.
 
-Theorem C03_commitment_complete : forall K, is_field K -> forall gm gb m b r c,
-  let o := comm_prover K gm gb m b r c in
+Theorem C03_commitment_complete : forall K, is_field K -> forall gm gb m b' n r c,
+  let o := comm_prover K gm gb m b' n r c in
   comm_verifier_blind K gm gb (co_C K o) (co_bp K o) (co_mp K o) c = co_blind K o.
 Proof. exact comm_complete. Qed.
+
+Theorem C03_encryption_complete : forall K, is_field K -> forall gm ek m k n r c,
+  let o := venc_prover K gm ek m k n r c in
+  venc_verifier_r1 K (vo_c1 K o) (vo_bp K o) c = vo_r1 K o /\
+  venc_verifier_r2 K gm ek (vo_c2 K o) (vo_bp K o) (vo_mp K o) c = vo_r2 K o.
+Proof. exact venc_complete. Qed.
 
 (** the verifier's index->slot walk reads, for the k-th hidden claim, the k-th response after the offset —
     the position where the honest provers put that claim's response (responses are built in claim order) *)
